@@ -1,41 +1,9 @@
-// counterexamples for harness c10::c10_w0_ret_vec_n2 (property C10); replay: ./check C10 --replay <this file>
+// counterexamples for harness c10::c10_w0_ret_nd_n2 (property C10); replay: ./check C10 --replay <this file>
 // features: c10
 #![allow(unused_imports)]
 use crate::c10::*;
 
-/// Test generated for harness `c10::c10_w0_ret_vec_n2` 
-///
-/// Check for `assertion`: ""rolling2_apply_idx returned: every output slot written before assume_init""
-///
-/// # Warning
-///
-/// Concrete playback tests combined with stubs or contracts is highly
-/// experimental, and subject to change.
-///
-/// The original harness has stubs which are not applied to this test.
-/// This may cause a mismatch of non-deterministic values if the stub
-/// creates any non-deterministic value.
-/// The execution path may also differ, which can be used to refine the stub
-/// logic.
-
-#[test]
-fn kani_concrete_playback_c10_w0_ret_vec_n2_13157712349687317502() {
-    let concrete_vals: Vec<Vec<u8>> = vec![
-        // 0
-        vec![0, 0, 0, 0],
-        // 0
-        vec![0, 0, 0, 0],
-        // 0
-        vec![0, 0, 0, 0],
-        // 0
-        vec![0, 0, 0, 0],
-        // 3
-        vec![3],
-    ];
-    kani::concrete_playback_run(concrete_vals, c10_w0_ret_vec_n2);
-}
-
-/// Test generated for harness `c10::c10_w0_ret_vec_n2` 
+/// Test generated for harness `c10::c10_w0_ret_nd_n2` 
 ///
 /// Check for `assertion`: ""rolling_apply returned: every output slot written before assume_init""
 ///
@@ -51,7 +19,7 @@ fn kani_concrete_playback_c10_w0_ret_vec_n2_13157712349687317502() {
 /// logic.
 
 #[test]
-fn kani_concrete_playback_c10_w0_ret_vec_n2_2159689926822512810() {
+fn kani_concrete_playback_c10_w0_ret_nd_n2_4695102467722140754() {
     let concrete_vals: Vec<Vec<u8>> = vec![
         // 0
         vec![0, 0, 0, 0],
@@ -64,42 +32,10 @@ fn kani_concrete_playback_c10_w0_ret_vec_n2_2159689926822512810() {
         // 0
         vec![0],
     ];
-    kani::concrete_playback_run(concrete_vals, c10_w0_ret_vec_n2);
+    kani::concrete_playback_run(concrete_vals, c10_w0_ret_nd_n2);
 }
 
-/// Test generated for harness `c10::c10_w0_ret_vec_n2` 
-///
-/// Check for `assertion`: ""rolling_apply_idx returned: every output slot written before assume_init""
-///
-/// # Warning
-///
-/// Concrete playback tests combined with stubs or contracts is highly
-/// experimental, and subject to change.
-///
-/// The original harness has stubs which are not applied to this test.
-/// This may cause a mismatch of non-deterministic values if the stub
-/// creates any non-deterministic value.
-/// The execution path may also differ, which can be used to refine the stub
-/// logic.
-
-#[test]
-fn kani_concrete_playback_c10_w0_ret_vec_n2_7737048279810549893() {
-    let concrete_vals: Vec<Vec<u8>> = vec![
-        // 0
-        vec![0, 0, 0, 0],
-        // 0
-        vec![0, 0, 0, 0],
-        // 0
-        vec![0, 0, 0, 0],
-        // 0
-        vec![0, 0, 0, 0],
-        // 1
-        vec![1],
-    ];
-    kani::concrete_playback_run(concrete_vals, c10_w0_ret_vec_n2);
-}
-
-/// Test generated for harness `c10::c10_w0_ret_vec_n2` 
+/// Test generated for harness `c10::c10_w0_ret_nd_n2` 
 ///
 /// Check for `assertion`: ""rolling_custom returned: every output slot written before assume_init""
 ///
@@ -115,7 +51,7 @@ fn kani_concrete_playback_c10_w0_ret_vec_n2_7737048279810549893() {
 /// logic.
 
 #[test]
-fn kani_concrete_playback_c10_w0_ret_vec_n2_1413893524331456767() {
+fn kani_concrete_playback_c10_w0_ret_nd_n2_2040016255419768963() {
     let concrete_vals: Vec<Vec<u8>> = vec![
         // 0
         vec![0, 0, 0, 0],
@@ -128,10 +64,74 @@ fn kani_concrete_playback_c10_w0_ret_vec_n2_1413893524331456767() {
         // 4
         vec![4],
     ];
-    kani::concrete_playback_run(concrete_vals, c10_w0_ret_vec_n2);
+    kani::concrete_playback_run(concrete_vals, c10_w0_ret_nd_n2);
 }
 
-/// Test generated for harness `c10::c10_w0_ret_vec_n2` 
+/// Test generated for harness `c10::c10_w0_ret_nd_n2` 
+///
+/// Check for `assertion`: ""rolling_apply_idx returned: every output slot written before assume_init""
+///
+/// # Warning
+///
+/// Concrete playback tests combined with stubs or contracts is highly
+/// experimental, and subject to change.
+///
+/// The original harness has stubs which are not applied to this test.
+/// This may cause a mismatch of non-deterministic values if the stub
+/// creates any non-deterministic value.
+/// The execution path may also differ, which can be used to refine the stub
+/// logic.
+
+#[test]
+fn kani_concrete_playback_c10_w0_ret_nd_n2_9093142431650522108() {
+    let concrete_vals: Vec<Vec<u8>> = vec![
+        // 0
+        vec![0, 0, 0, 0],
+        // 0
+        vec![0, 0, 0, 0],
+        // 0
+        vec![0, 0, 0, 0],
+        // 0
+        vec![0, 0, 0, 0],
+        // 1
+        vec![1],
+    ];
+    kani::concrete_playback_run(concrete_vals, c10_w0_ret_nd_n2);
+}
+
+/// Test generated for harness `c10::c10_w0_ret_nd_n2` 
+///
+/// Check for `assertion`: ""rolling2_apply_idx returned: every output slot written before assume_init""
+///
+/// # Warning
+///
+/// Concrete playback tests combined with stubs or contracts is highly
+/// experimental, and subject to change.
+///
+/// The original harness has stubs which are not applied to this test.
+/// This may cause a mismatch of non-deterministic values if the stub
+/// creates any non-deterministic value.
+/// The execution path may also differ, which can be used to refine the stub
+/// logic.
+
+#[test]
+fn kani_concrete_playback_c10_w0_ret_nd_n2_3679207215474194360() {
+    let concrete_vals: Vec<Vec<u8>> = vec![
+        // 0
+        vec![0, 0, 0, 0],
+        // 0
+        vec![0, 0, 0, 0],
+        // 0
+        vec![0, 0, 0, 0],
+        // 0
+        vec![0, 0, 0, 0],
+        // 3
+        vec![3],
+    ];
+    kani::concrete_playback_run(concrete_vals, c10_w0_ret_nd_n2);
+}
+
+/// Test generated for harness `c10::c10_w0_ret_nd_n2` 
 ///
 /// Check for `assertion`: ""rolling2_apply returned: every output slot written before assume_init""
 ///
@@ -147,7 +147,7 @@ fn kani_concrete_playback_c10_w0_ret_vec_n2_1413893524331456767() {
 /// logic.
 
 #[test]
-fn kani_concrete_playback_c10_w0_ret_vec_n2_7772645628389453548() {
+fn kani_concrete_playback_c10_w0_ret_nd_n2_8619220007068142047() {
     let concrete_vals: Vec<Vec<u8>> = vec![
         // 0
         vec![0, 0, 0, 0],
@@ -160,5 +160,5 @@ fn kani_concrete_playback_c10_w0_ret_vec_n2_7772645628389453548() {
         // 2
         vec![2],
     ];
-    kani::concrete_playback_run(concrete_vals, c10_w0_ret_vec_n2);
+    kani::concrete_playback_run(concrete_vals, c10_w0_ret_nd_n2);
 }
